@@ -60,6 +60,10 @@ pub enum UiOp {
     /// (or a fresh injector when the table is empty); `move_handle` gives the handle away
     Spawn { w: u32, h: u32, move_handle: bool },
     Reparse { col: u32, text: String },
+    /// reparse with explicit case matching (0 smart, 1 ignore, 2 respect) and normalisation
+    /// (0 smart, 1 never) for this column from now on; the append hint is only given when the
+    /// settings did not change (loosening them is not a refinement of the previous pattern)
+    ReparseOpts { col: u32, text: String, case: u8, norm: u8 },
     Tick { timeout: u64 },
     TickUntilIdle { max: u32 },
     Restart { clear: bool },
@@ -106,15 +110,15 @@ impl NucleoScript {
             _ => Config::DEFAULT,
         }
     }
-    fn case(&self) -> CaseMatching {
-        match self.case {
+    fn case_of(c: u8) -> CaseMatching {
+        match c {
             1 => CaseMatching::Ignore,
             2 => CaseMatching::Respect,
             _ => CaseMatching::Smart,
         }
     }
-    fn norm(&self) -> Normalization {
-        match self.norm {
+    fn norm_of(n: u8) -> Normalization {
+        match n {
             1 => Normalization::Never,
             _ => Normalization::Smart,
         }
@@ -262,6 +266,8 @@ struct Ui<'a> {
     handles: Vec<Option<(Injector<Payload>, u32)>>,
     cur_stream: u32,
     texts: Vec<String>,
+    /// (case, norm) each column was last parsed with
+    opts: Vec<(u8, u8)>,
     refm: Matcher,
     gates: Vec<Sh<Gate>>,
     event: Sh<Event>,
@@ -663,7 +669,7 @@ impl<'a> Ui<'a> {
         }
         let mut fresh = MultiPattern::new(cols);
         for (c, t) in self.texts.iter().enumerate() {
-            fresh.reparse(c, t, self.sc.case(), self.sc.norm(), false);
+            fresh.reparse(c, t, NucleoScript::case_of(self.opts[c].0), NucleoScript::norm_of(self.opts[c].1), false);
         }
         let mut want: Vec<(u32, u32, u32)> = items
             .iter()
@@ -797,14 +803,22 @@ impl<'a> Ui<'a> {
                 }
                 self.writers[w] = Some(jh);
             }
-            UiOp::Reparse { col, text } => {
+            UiOp::Reparse { .. } | UiOp::ReparseOpts { .. } => {
+                let (col, text, opts) = match op {
+                    UiOp::Reparse { col, text } => (col, text, None),
+                    UiOp::ReparseOpts { col, text, case, norm } => (col, text, Some((*case, *norm))),
+                    _ => unreachable!(),
+                };
                 if let Some(n) = &mut self.nucleo {
                     let c = *col as usize % self.sc.columns as usize;
-                    // truthful append hint
-                    let append = text.starts_with(&self.texts[c]);
-                    n.pattern.reparse(c, text, self.sc.case(), self.sc.norm(), append);
-                    sim::log(format!("ui reparse col {c} {:?} -> {:?} append={append}", self.texts[c], text));
+                    let new_opts = opts.unwrap_or(self.opts[c]);
+                    // truthful append hint: the previous text is a prefix of the new one and the
+                    // parse settings are the same
+                    let append = text.starts_with(&self.texts[c]) && new_opts == self.opts[c];
+                    n.pattern.reparse(c, text, NucleoScript::case_of(new_opts.0), NucleoScript::norm_of(new_opts.1), append);
+                    sim::log(format!("ui reparse col {c} {:?} -> {:?} opts {:?} -> {:?} append={append}", self.texts[c], text, self.opts[c], new_opts));
                     self.texts[c] = text.clone();
+                    self.opts[c] = new_opts;
                     self.pending_edit = true;
                     sim::fault("F5.edit");
                 }
@@ -1169,6 +1183,7 @@ impl Job for NucleoScript {
             handles: Vec::new(),
             cur_stream: 0,
             texts: vec![String::new(); self.columns as usize],
+            opts: vec![(self.case, self.norm); self.columns as usize],
             refm: Matcher::new(self.config()),
             gates: (0..self.gates).map(|_| Sh(Rc::new(Gate::default()))).collect(),
             event,
@@ -1286,7 +1301,7 @@ pub fn sequentialise(sc: &NucleoScript) -> NucleoScript {
                 ui.push(op.clone());
                 ui.push(UiOp::JoinWriters);
             }
-            UiOp::NewInjector | UiOp::CloneInjector { .. } | UiOp::DropInjector { .. } | UiOp::Reparse { .. } | UiOp::Restart { .. } | UiOp::Quiesce | UiOp::Tick { .. } => ui.push(op.clone()),
+            UiOp::NewInjector | UiOp::CloneInjector { .. } | UiOp::DropInjector { .. } | UiOp::Reparse { .. } | UiOp::ReparseOpts { .. } | UiOp::Restart { .. } | UiOp::Quiesce | UiOp::Tick { .. } => ui.push(op.clone()),
             _ => {}
         }
     }
